@@ -175,9 +175,9 @@ def work(item):
         for v in values:
             n += 1
             ok += _eval(res, name, m, fn, v, v, None, None)
-        # each single non-default boolean option of the getter itself
+        # each single non-default boolean option (and lowest-year option) of the getter itself
         for o in option_sets(name, getattr(m, fn))[0][1:]:
-            if not all(isinstance(val, bool) for val in o.values()):
+            if not all(isinstance(val, bool) or k in ('minyear',) for k, val in o.items()):
                 continue
             for v in values[:200 if quick else 3000]:
                 n += 1
